@@ -4,3 +4,8 @@ from . import readers
 
 def run(ck, fb, fbd):
     readers.Budget(ck, fb).run()
+    readers.range_rules(ck, fb)
+    readers.result_rules(ck, fb)
+    readers.empty_sequence_rules(ck, fb)
+    readers.loop_rules(ck, fb)
+    readers.exception_rules(ck, fb)
